@@ -6,24 +6,26 @@ From Blue Require Lsm.History Stall.EndToEnd.
 Import ListNotations.
 Open Scope N_scope.
 From Blue Require Import Stall.Props_C20.
-Check C20_no_deadlock_outside_known : forall o v nc ni s, steps o (init v nc ni) s -> sel_wfb (p_v s) = true -> known_stall o (p_v s) = false -> ~ all_parked s.
-Check C20_all_parked_is_unrelievable_stall : forall o v nc ni s, steps o (init v nc ni) s -> all_parked s -> should_stall_ingest o (p_v s) = true /\ p_og s = [] /\ exists out, next_compaction o (p_v s) [] = Ok out /\ nc_choice out = None.
-Check C20_no_lost_wakeup_stall : forall o v nc ni s i f, steps o (init v nc ni) s -> nth_error (p_i s) i = Some (IWait f) -> should_stall_ingest o (p_v s) = true.
-Check C20_no_lost_wakeup_compact : forall o v nc ni s, steps o (init v nc ni) s -> all_compactors_parked s -> p_og s = [] /\ exists out, next_compaction o (p_v s) [] = Ok out /\ nc_choice out = None.
+Check C20_no_deadlock_outside_known : forall o v nc ni s, steps true o (init v nc ni) s -> sel_wfb (p_v s) = true -> known_stall o (p_v s) = false -> ~ all_parked s.
+Check C20_all_parked_is_unrelievable_stall : forall o v nc ni s, steps true o (init v nc ni) s -> all_parked s -> should_stall_ingest o (p_v s) = true /\ p_og s = [] /\ forall out c, next_compaction o (p_v s) [] = Ok out -> nc_choice out <> Some c.
+Check C20_no_lost_wakeup_stall : forall o v nc ni s i f, steps true o (init v nc ni) s -> nth_error (p_i s) i = Some (IWait f) -> should_stall_ingest o (p_v s) = true.
+Check C20_no_lost_wakeup_compact : forall o v nc ni s, steps true o (init v nc ni) s -> all_compactors_parked s -> p_og s = [] /\ forall out c, next_compaction o (p_v s) [] = Ok out -> nc_choice out <> Some c.
 Check C20_stall_relievable_outside_known : forall o v, sel_wfb v = true -> should_stall_ingest o v = true -> known_stall o v = false -> exists out c, next_compaction o v [] = Ok out /\ nc_choice out = Some c.
 Check C20_stall_relievable_options : forall o v, sel_wfb v = true -> should_stall_ingest o v = true -> options_safe o v = true -> exists out c, next_compaction o v [] = Ok out /\ nc_choice out = Some c.
 Check C20_stall_relievable_refuted : exists o v, sel_wfb v = true /\ should_stall_ingest o v = true /\ known_stall o v = true /\ next_compaction o v [] = Ok (mkNC None false).
 Check C20_stall_without_mandatory_refuted : sel_wfb ex_tree_c = true /\ should_stall_ingest ex_opts_c' ex_tree_c = true /\ should_mandatory ex_opts_c' ex_tree_c = false /\ known_stall ex_opts_c' ex_tree_c = true /\ next_compaction ex_opts_c' ex_tree_c [] = Ok (mkNC None false).
 Check C20_stall_on_empty_tree_refuted : sel_wfb ex_tree_a = true /\ should_stall_ingest ex_opts_a ex_tree_a = true /\ known_stall ex_opts_a ex_tree_a = true /\ next_compaction ex_opts_a ex_tree_a [] = Ok (mkNC None false).
-Check C20_deadlock_reachable_in_known_class : exists s, steps ex_opts_c (init ex_tree_c 0 1) s /\ all_parked s.
-Check C20_stall_is_forever : forall o s s', stuck o s -> steps o s s' -> stuck o s' /\ p_v s' = p_v s /\ (forall i, (exists f, nth_error (p_i s) i = Some (ICheck f) \/ nth_error (p_i s) i = Some (IWait f)) -> (exists f, nth_error (p_i s') i = Some (ICheck f) \/ nth_error (p_i s') i = Some (IWait f))).
+Check C20_deadlock_reachable_in_known_class : exists s, steps true ex_opts_c (init ex_tree_c 0 1) s /\ all_parked s.
+Check C20_stall_is_forever : forall o s s', stuck o s -> steps true o s s' -> stuck o s' /\ p_v s' = p_v s /\ (forall i, (exists f, nth_error (p_i s) i = Some (ICheck f) \/ nth_error (p_i s) i = Some (IWait f)) -> (exists f, nth_error (p_i s') i = Some (ICheck f) \/ nth_error (p_i s') i = Some (IWait f))).
 Check C20_selector_admissible : forall o v og out c, sel_wfb v = true -> next_compaction o v og = Ok out -> nc_choice out = Some c -> valid_compactionb v (cc c) = true.
 Check C20_selector_respects_ongoing : forall o v og out c, sel_wfb v = true -> next_compaction o v og = Ok out -> nc_choice out = Some c -> may_choose o og (cc c) = true.
 Check C20_selector_total : forall o v og, sel_wfb v = true -> exists out, next_compaction o v og = Ok out.
 Check C20_compute_bounds_fuel : forall lv fk lk, widen (widen_fuel lv) lv (lower_bound lv fk) (upper_bound lv lk) fk lk <> None.
 Check C20_ingest_keeps_stall : forall o v f, v <> [] -> should_stall_ingest o v = true -> should_stall_ingest o (ingest v f) = true.
 Check C20_compaction_lowers_measure : forall o v og out c outs, sel_wfb v = true -> next_compaction o v og = Ok out -> nc_choice out = Some c -> (ec outs <= in_entries v (cc c))%nat -> (mu (apply_compaction v (cc c) outs) < mu v)%nat.
-Check C20_compaction_runs_are_bounded : forall o n v v', crun o n v v' -> (n + mu v' <= mu v)%nat.
+Check C20_admissible_compaction_lowers_measure : forall v c outs, valid_compactionb v c = true -> (ec outs <= in_entries v c)%nat -> ec (concat (map (filter (is_input c)) (mids v c))) <> 0%nat -> (mu (apply_compaction v c outs) < mu v)%nat.
+Check C20_compaction_runs_are_bounded_sequential : forall o n v v', crun o n v v' -> (n + mu v' <= mu v)%nat.
 Check C20_tables_cover_levels : len level_curve_tbl = STALL_NUM_LEVELS /\ len level_factor_tbl = STALL_NUM_LEVELS.
+Check C20_no_lost_wakeup_compact_refuted_before_repair : exists s, steps false ex_opts_default (init ex_tree_stalled 1 1) s /\ all_parked s /\ sel_wfb (p_v s) = true /\ known_stall ex_opts_default (p_v s) = false /\ exists out c, next_compaction ex_opts_default (p_v s) [] = Ok out /\ nc_choice out = Some c.
 Check C20_selected_merge_preserves_reads : forall s o og out c outs, History.Inv s -> sel_wfb (ver s) = true -> next_compaction o (ver s) og = Ok out -> nc_choice out = Some c -> outputs_okb (ver s) (cc c) outs = true -> History.Inv (compact s (cc c) outs) /\ forall k t, load (compact s (cc c) outs) k t = load s k t.
 Check C20_selected_gc_preserves_visible_values : forall s o og out c outs, History.Inv s -> sel_wfb (ver s) = true -> next_compaction o (ver s) og = Ok out -> nc_choice out = Some c -> S (cupper (cc c)) = length (ver s) -> gc_outputs_okb (ver s) (cc c) outs = true -> History.Inv (compact s (cc c) outs) /\ forall k, get (compact s (cc c) outs) k = get s k.
